@@ -66,7 +66,7 @@ fn default_layout() -> Layout {
         blocks: vec![],
         eof_marker: true,
         level: 6,
-    bcf_minor: 0,
+    bcf_minor: 0, no_contig_lines: false,
     }
 }
 
@@ -123,6 +123,11 @@ fn gen_variant(rng: &mut Rng, payload_vcf: &[u8], l1: bool, thorough: bool) -> V
         0 => {
             v.label = "container".into();
             v.container = pick_container(rng);
+            if rng.chance(1, 4) {
+                // a header without ##contig lines: valid VCF, and in BCF the records' CHROM ids have
+                // no dictionary entry (files not written by htslib)
+                v.layout.no_contig_lines = true;
+            }
             if matches!(v.container, Container::Bcf | Container::BcfRaw) && rng.chance(1, 3) {
                 // BCF 2.1 instead of 2.2: same records, same decoder
                 v.layout.bcf_minor = 1;
